@@ -137,7 +137,11 @@ let run_oracles (case : string) (out : string) (kind : string) (peqb : 'p -> 'p 
   count_n ("polls:" ^ kind) n;
   let probes = probed abs in
   count_n ("probes:" ^ kind) (List.length probes);
-  if not (cursor_walk Z0 false abs) then fail "cursor";
+  (* the property: only addresses 0..125 are ever probed.  The +1-per-probe sweep ORDER is how the
+     code achieves convergence (theorem C18_cursor) but not itself demanded by the property: a
+     deviation from it is left to the correspondence (DIVERGE) and to the convergence oracle. *)
+  if List.exists (fun a -> let i = int_of_z a in i < 0 || i > 125) probes then fail "probe_range"
+  else if not (cursor_walk Z0 false abs) then count ("cursor-order-deviation:" ^ kind);
   if not (evs_matchb peqb abs) then fail "event_matches_observation";
   let clean = no_other abs in
   (match alt_walk silent Z0 abs with None -> fail "alternate" | Some _ -> ());
@@ -161,6 +165,61 @@ let run_oracles (case : string) (out : string) (kind : string) (peqb : 'p -> 'p 
       if int_of_nat stable > 0 then count (Printf.sprintf "conv:%s:cases-with-stable-window:%s" name kind);
       if int_of_nat failed > 0 then fail ("converges_" ^ name))
       [(2 * int_of_nat sweep_polls, "two-sweeps"); (int_of_nat sweep_polls, "one-sweep")]
+  end
+
+
+(* ---- ground-truth oracle: the case line says who is on the bus.  In a clean case (no lost and no
+   other replies) let K be the probe index of the last population change; once the application's
+   own sweep has wrapped three times after K (two FULL sweeps lie between the first and the third
+   wrap) the station set must be exactly the final population minus the own address.  This does
+   not depend on the order in which the application sweeps. *)
+let rec bits_of_pos (p : positive) (i : int) (acc : int list) : int list =
+  match p with
+  | XH -> i :: acc
+  | XO q -> bits_of_pos q (i + 1) acc
+  | XI q -> bits_of_pos q (i + 1) (i :: acc)
+let bits_of_z (x : z) : int list = match x with Zpos p -> List.sort compare (bits_of_pos p 0 []) | _ -> []
+
+let ground_truth (case : string) (out : string) (kind : string) (ts : int) (pop : string) (script : string)
+    (abs : 'p apoll list) : unit =
+  let entries = if script = "-" then [] else String.split_on_char ',' script in
+  if List.exists (fun e -> String.contains e '!') entries then count ("truth:skipped-dirty:" ^ kind)
+  else if not (no_other abs) then count ("truth:skipped-other-replies:" ^ kind)
+  else begin
+    let popl = ref (if pop = "-" then [] else
+      List.map (fun e -> int_of_string (List.hd (String.split_on_char '=' e))) (String.split_on_char ',' pop)) in
+    let last_change = ref (-1) in
+    List.iter (fun e ->
+      if String.contains e '+' then begin
+        let i = String.index e '+' in
+        let k = int_of_string (String.sub e 0 i) in
+        let rest = String.sub e (i + 1) (String.length e - i - 1) in
+        let a = int_of_string (List.hd (String.split_on_char '=' rest)) in
+        last_change := max !last_change k;
+        if not (List.mem a !popl) then popl := a :: !popl
+      end else if String.contains e '-' then begin
+        let i = String.index e '-' in
+        let k = int_of_string (String.sub e 0 i) in
+        let a = int_of_string (String.sub e (i + 1) (String.length e - i - 1)) in
+        last_change := max !last_change k;
+        popl := List.filter (fun x -> x <> a) !popl
+      end) entries;
+    (* script entries are applied in probe order by the harness; recompute in that order *)
+    let probes = List.filter_map (fun p -> match p.ap_da with Some a -> Some (int_of_z a) | None -> None) abs in
+    let rec wraps i prev l acc = match l with
+      | [] -> acc
+      | a :: r -> let acc' = (match prev with Some b when i > !last_change && a <= b -> acc + 1 | _ -> acc) in
+                  wraps (i + 1) (Some a) r acc' in
+    let w = wraps 0 None probes 0 in
+    if w >= 3 then begin
+      count ("truth:checked:" ^ kind);
+      let expect = List.sort compare (List.filter (fun a -> a <> ts) (List.sort_uniq compare !popl)) in
+      let final = (match List.rev abs with p :: _ -> bits_of_z p.ap_bits | [] -> []) in
+      if final <> expect then
+        report_fail "C18" "converges_to_population" case
+          (Printf.sprintf "expected {%s} got {%s}" (String.concat "," (List.map string_of_int expect))
+             (String.concat "," (List.map string_of_int final)))
+    end else count ("truth:too-short:" ^ kind)
   end
 
 (* ---- RAW cases: callbacks in arbitrary order *)
@@ -222,7 +281,7 @@ let first_diff (a : string) (b : string) : string =
 let handle (case : string) (out : string) : unit =
   incr n_cases;
   match split_ws case with
-  | ["SCAN"; ts; kind; _hp; _npolls; _pop; _script] ->
+  | ["SCAN"; ts; kind; _hp; _npolls; pop_s; script_s] ->
       let tsz = zi (int_of_string ts) in
       if canon_panic out <> out || contains out "PANIC" then begin
         count ("scan:impl-panic:" ^ kind);
@@ -237,7 +296,8 @@ let handle (case : string) (out : string) : unit =
              if m <> out then report_diverge "C18" case (first_diff out m) "(see impl)"
          | Panic _ -> report_diverge "C18" case (short out) "PANIC"
          | OutOfFuel -> report_diverge "C18" case (short out) "OUTOFFUEL");
-        run_oracles case out "L" resp_state_eqb true false (List.map ll_abs itr)
+        run_oracles case out "L" resp_state_eqb true false (List.map ll_abs itr);
+        ground_truth case out "L" (int_of_string ts) pop_s script_s (List.map ll_abs itr)
       end else begin
         let (itr, replies) = parse_transcript sc_ev_of_string out in
         count ("scan:S:" ^ (if List.length itr >= 504 then "long" else "short"));
@@ -247,7 +307,8 @@ let handle (case : string) (out : string) : unit =
              if m <> out then report_diverge "C18" case (first_diff out m) "(see impl)"
          | Panic _ -> report_diverge "C18" case (short out) "PANIC"
          | OutOfFuel -> report_diverge "C18" case (short out) "OUTOFFUEL");
-        run_oracles case out "S" sc_pay_eqb false true (List.map sc_abs itr)
+        run_oracles case out "S" sc_pay_eqb false true (List.map sc_abs itr);
+        ground_truth case out "S" (int_of_string ts) pop_s script_s (List.map sc_abs itr)
       end
   | ["RAW"; ts; kind; ops] ->
       let m = raw_model kind (zi (int_of_string ts)) (String.split_on_char ',' ops) in
